@@ -584,3 +584,68 @@ def cli_replay(sub):
         return None
 
     return replay
+
+
+# ---- C19: _patch_obj against the recursive statement of placement
+
+def patch_obj_replay(shape):
+    shape = tuple(shape)
+
+    def replay(inputs):
+        import copy
+
+        import specs.projection as pspec
+
+        fl = importlib.import_module("jsonpath.fluent_api")
+
+        def node(k):
+            n = fl._Node()
+            ks, vs = real(inputs.get(f"node{k}_keys", [])), real(inputs.get(f"node{k}_vals", []))
+            for a, b in zip(ks, vs):
+                if isinstance(a, (int, str)) and not isinstance(a, bool):
+                    n[a] = b
+            return n
+
+        toks = [real(inputs[f"token{k}"]) for k in range(len(shape) + 1)]
+        if not all(isinstance(t, (int, str)) and not isinstance(t, bool) for t in toks):
+            return None
+        root = cur = node(0)
+        for k, what in enumerate(shape):
+            if what == "absent":
+                cur.pop(toks[k], None)
+                break
+            if what == "node":
+                child = node(k + 1)
+                cur[toks[k]] = child
+                cur = child
+            else:
+                cur[toks[k]] = real(inputs.get(f"selected{k}"))
+                break
+        value = real(inputs.get("value"))
+
+        def view(x):
+            if isinstance(x, fl._Node):
+                return ("node", {k: view(v) for k, v in x.items()})
+            return x
+
+        a, b = copy.deepcopy(root), copy.deepcopy(root)
+        pspec_new, pspec_is = pspec.new_node, pspec.is_node
+        pspec.new_node, pspec.is_node = fl._Node, (lambda x: isinstance(x, fl._Node))
+        try:
+            try:
+                fl._patch_obj(tuple(toks), a, copy.deepcopy(value))
+                got = ("returns", view(a))
+            except Exception as e:  # noqa: BLE001
+                got = ("raises", type(e).__name__)
+            try:
+                pspec.place_at(b, tuple(toks), copy.deepcopy(value))
+                want = ("returns", view(b))
+            except Exception as e:  # noqa: BLE001
+                want = ("raises", type(e).__name__)
+        finally:
+            pspec.new_node, pspec.is_node = pspec_new, pspec_is
+        if got != want:
+            return f"_patch_obj({tuple(toks)!r}, {view(root)!r}, {value!r}) {got[0]} {got[1]!r}; placing the value at that location gives {want[1]!r}"
+        return None
+
+    return replay
